@@ -162,3 +162,51 @@ def setstate_post(ex, st, pre, flow, val, args):
     ex.oblige(st, "__setstate__:slots-are-the-pickled-parts", "post", z3.And(ok), None, {})
     c = obj.fields.get("_cache")
     ex.oblige(st, "__setstate__:memo-is-empty", "post", z3.BoolVal(isinstance(c, V.VDict) and not c.d), None, {})
+
+
+# ---------------------------------------------------------------- normalize_path_segments (C15)
+
+def nps_pre(ex, st, args):
+    return {"segments": args[0]}
+
+
+def nps_post(ex, st, pre, flow, val, args):
+    """C15 over segments: the result has no '.'/'..' element; a list without dot segments is
+    returned unchanged (idempotence); a final dot segment leaves a trailing empty segment"""
+    import z3
+    from pyvc import values as V
+    from pyvc.lib import as_seglist, _not_dot
+    if flow != "return":
+        ex.oblige(st, "normalize_path_segments:returns", "post", z3.BoolVal(False), None, {})
+        return
+    res = as_seglist(st.ctx, val).view
+    seg = st.tr(pre["segments"]).view
+    n = seg.len()
+    ex.oblige(st, "nps:result-has-no-dot-segment", "post", V.all_in(st.ctx, res, _not_dot, "nodots"), None, {})
+    nod = V.all_in(st.ctx, seg, _not_dot, "nodots")
+    ex.oblige(st, "nps:no-dot-segment-in-input=>result-is-the-input(idempotent)", "post",
+              z3.Implies(nod, V.str_eq(st.ctx, res, seg)), None, {})
+    last = seg.a[V.name_term(st.ctx, seg.hi - 1, "li")]
+    trailing = z3.And(n > 0, z3.Or(last == 1, last == 2))
+    rl = res.a[V.name_term(st.ctx, res.hi - 1, "li")]
+    ex.oblige(st, "nps:final-dot-segment=>trailing-empty-segment", "post",
+              z3.Implies(trailing, z3.And(res.len() > 0, rl == 0)), None, {})
+    ex.oblige(st, "nps:result-not-longer-than-input-plus-one", "post", res.len() <= n + 1, None, {})
+
+
+def nps_abstract(ex, st, args, kwargs, node):
+    """normalize_path_segments at a call site: an opaque function of the argument list with the
+    postconditions proved for the function itself"""
+    import z3
+    from pyvc import values as V
+    from pyvc.lib import as_seglist, _not_dot, _memo, _skey
+    seg = as_seglist(st.ctx, args[0]).view
+    key = ("nps",) + _skey(seg)
+    m = _memo(st.ctx)
+    if key not in m:
+        res = V.fresh_str(st.ctx, "nps", "segs")
+        st.ctx.add(V.all_in(st.ctx, res, _not_dot, "nodots"))
+        st.ctx.add(z3.Implies(V.all_in(st.ctx, seg, _not_dot, "nodots"), V.str_eq(st.ctx, res, seg)))
+        st.ctx.add(res.len() <= seg.len() + 1)
+        m[key] = res
+    yield V.VSList(m[key], fresh=True), st
